@@ -70,6 +70,14 @@ def RS.setAlias (s : RS) (path al : Str) : RS :=
   if s.pend.path = path then { s with pend := { s.pend with alias := al } }
   else { s with imps := setAliasIn path al s.imps }
 
+/-- one iteration of the `for _, p := range []*Package{a, b}` loop of
+    `resolveImportConflict`: the wanted name is free (or taken by `p` itself) ⇒ assign it;
+    taken by another package ⇒ resolve that conflict one level deeper (`deeper`) -/
+def resolveStep (o : Ord) (deeper : RS → Str → Str → Option RS) (lvl : Nat) (s : RS) (p : Str) : Option RS :=
+  match searchIn (o.pk s.imps) (uniqueName p lvl) with
+  | some c => if c.path = p then some (s.setAlias p (uniqueName p lvl)) else deeper s p c.path
+  | none => some (s.setAlias p (uniqueName p lvl))
+
 /-- registry.go `resolveImportConflict(a, b, lvl)`; packages are named by path.
     `none` = out of fuel = the Go code does not return. -/
 def resolve (o : Ord) : Nat → RS → Str → Str → Nat → Option RS
@@ -77,14 +85,8 @@ def resolve (o : Ord) : Nat → RS → Str → Str → Nat → Option RS
   | fuel + 1, s, a, b, lvl =>
     if uniqueName a lvl = uniqueName b lvl then resolve o fuel s a b (lvl + 1)
     else
-      let step (s : RS) (p : Str) : Option RS :=
-        let name := uniqueName p lvl
-        match searchIn (o.pk s.imps) name with
-        | some c =>
-          if c.path ≠ p then resolve o fuel s p c.path (lvl + 1)
-          else some (s.setAlias p name)
-        | none => some (s.setAlias p name)
-      (step s a).bind fun s1 => step s1 b
+      (resolveStep o (fun s p q => resolve o fuel s p q (lvl + 1)) lvl s a).bind fun s1 =>
+        resolveStep o (fun s p q => resolve o fuel s p q (lvl + 1)) lvl s1 b
 
 /-- registry.go `AddImport`.  Result: new registry and the stripped path when the returned
     `*Package` is non-nil. -/
